@@ -40,7 +40,7 @@ func baseWorld(name string) *harness.World {
 }
 
 func worlds() []*worldDef {
-	full := []*eventDef{evEmpty, evStakeNew, evStakeLow, evStakeMore, evStakeDupKey, evUnstakePart, evUnstakeBelowV1,
+	full := []*eventDef{evEmpty, evStakeNew, evStakeLow, evStakeMore, evStakeDupKey, evStakeSecpKey, evUnstakePart, evUnstakeBelowV1,
 		evUnstakeBelowV2, evUnstakeAllV3, evUnstakeAllV4, evWithdrawV3, evAbsentV3, evGuiltyV3, evReleaseV3, evByzV2}
 	// the boundary worlds leave out what cannot interact with the top-count rule
 	boundary := []*eventDef{evEmpty, evStakeNew, evStakeLow, evStakeMore, evUnstakePart, evUnstakeBelowV1,
@@ -153,6 +153,13 @@ var (
 	evStakeDupKey = &eventDef{Name: "stake-dupkey(V4,key-of-V1,600000)", Kind: "stake-dupkey", HasTx: true, Hostile: true, Target: 4, Blocks: func(c *evCtx) []harness.BlockSpec {
 		v := c.W.Vals[3]
 		return []harness.BlockSpec{nb(stk.StakeRaw(v.Val, v.Stake, c.W.Vals[0].Val.Pub, v.Ecdsa.Pub, v.Name, stk.WholeOLT(600000), c.Tag))}
+	}}
+	// a NEW validator whose consensus key is a SECP256K1 key (address and key match, correctly signed by both
+	// parties, funded from V4's stake account): Tendermint's default consensus parameters admit ed25519 keys only
+	evStakeSecpKey = &eventDef{Name: "stake-new(validator-with-secp256k1-consensus-key,600000)", Kind: "stake-secp-key", HasTx: true, Hostile: true, Target: 4, Blocks: func(c *evCtx) []harness.BlockSpec {
+		v := c.W.Vals[3]
+		sv := harness.NewSecpAccount("c10-secp-validator")
+		return []harness.BlockSpec{nb(stk.StakeRaw(sv, v.Stake, sv.Pub, v.Ecdsa.Pub, "secpval", stk.WholeOLT(600000), c.Tag))}
 	}}
 	evUnstakePart = &eventDef{Name: "unstake-part(V1,500000)", Kind: "unstake-part", HasTx: true, Target: 1, Blocks: func(c *evCtx) []harness.BlockSpec {
 		v := c.W.Vals[0]
